@@ -225,8 +225,13 @@ _mtbl_sorter_write_chunk(struct entry_batch *b)
 					     entry_val(next_ent), next_ent->len_val,
 					     &merge_val, &len_merge_val);
 				if (merge_val == NULL) {
+					/* entries before i were freed as they were written */
+					for (; i < entry_vec_size(b->entries); i++)
+						free(entry_vec_value(b->entries, i));
+					entry_vec_destroy(&b->entries);
 					free(b);
 					mtbl_writer_destroy(&w);
+					close(fd);
 					return (NULL);
 				}
 				size_t len = sizeof(struct entry) + ent->len_key + len_merge_val;
